@@ -1828,22 +1828,38 @@ package gocql
 // What the executor relies on from a query or a batch: every attempt is counted (Attempts() is what the retry
 // policies compare with their limit), with or without an observer; a batch is idempotent only if every one of
 // its statements is.
+// the attempt counter that the retry policies read: every call adds exactly what it is told to and returns the
+// previous total; the per-host record gets the same addition
 //@ func (qm *queryMetrics) attempt
 //@   props C13
-//@   trusted adds to the attempt counter and the per-host metrics under the metrics lock
-//@   preserves_types Query Batch Iter HostInfo Conn Session
+//@   count_calls hostMetricsLocked
+//@   requires qm != nil && host != nil
+//@   ensures qm.totalAttempts == old(qm.totalAttempts) + addAttempts && result0 == old(qm.totalAttempts)
+//@   ensures hostMetricsLocked_calls == 1 && hostMetricsLocked_ret0.Attempts == old(hostMetricsLocked_ret0.Attempts) + addAttempts
+
+//@ func (qm *queryMetrics) hostMetricsLocked
+//@   props C13
+//@   trusted get-or-create in the per-host map, keyed by the host's address (needs a valid host address)
+//@   preserves_types queryMetrics Query Batch Iter HostInfo Conn Session
+//@   ensures result != nil
+
+//@ func (qm *queryMetrics) attempts
+//@   props C13
+//@   requires qm != nil
+//@   modifies nothing
+//@   ensures result == qm.totalAttempts
 
 //@ func (b *Batch) attempt
 //@   props C13
 //@   count_calls queryMetrics.attempt
-//@   requires b != nil && b.metrics != nil && iter != nil
+//@   requires b != nil && b.metrics != nil && iter != nil && host != nil
 //@   before[C13] queryMetrics.attempt: arg0 == b.metrics && arg1 == 1 && arg3 == host
 //@   ensures[C13] queryMetrics_attempt_calls == 1
 
 //@ func (q *Query) attempt
 //@   props C13
 //@   count_calls queryMetrics.attempt
-//@   requires q != nil && q.metrics != nil && iter != nil
+//@   requires q != nil && q.metrics != nil && iter != nil && host != nil
 //@   before[C13] queryMetrics.attempt: arg0 == q.metrics && arg1 == 1 && arg3 == host
 //@   ensures[C13] queryMetrics_attempt_calls == 1
 
@@ -1919,6 +1935,28 @@ package gocql
 //@   requires q != nil
 //@   count_calls Attempts
 //@   ensures Attempts_calls == 1 && result == (Attempts_ret0 <= s.NumRetries)
+
+// the exponential policy allows NumRetries retries like the simple one (the decision is taken on the first
+// reading of the attempt counter; the nap in between is not part of the claim)
+//@ func (e *ExponentialBackoffRetryPolicy) Attempt
+//@   props C13
+//@   requires q != nil
+//@   count_calls Attempts
+//@   ensures Attempts_calls >= 1 && result == (nth(Attempts, 1) <= e.NumRetries)
+
+//@ func (e *ExponentialBackoffRetryPolicy) napTime
+//@   props C13
+//@   trusted floating-point back-off with jitter (math.Pow, math/rand): only its duration matters, and that is not claimed
+//@   modifies nothing
+
+// the downgrading policy allows one retry per consistency level it was given, each with the next level
+//@ func (d *DowngradingConsistencyRetryPolicy) Attempt
+//@   props C13
+//@   requires q != nil
+//@   count_calls Attempts SetConsistency
+//@   ensures Attempts_calls == 1 && result == (Attempts_ret0 <= len(d.ConsistencyLevelsToTry))
+//@   before[C13] SetConsistency: Attempts_ret0 >= 1 && arg0 == d.ConsistencyLevelsToTry[Attempts_ret0-1]
+//@   ensures SetConsistency_calls == ite(Attempts_ret0 >= 1 && Attempts_ret0 <= len(d.ConsistencyLevelsToTry), 1, 0)
 
 // list/set framing (the element values themselves come from Marshal): after the element
 // count, every element is written as its length ([int] for protocol >= 3 with -1 for a
